@@ -249,7 +249,9 @@ def _populate(ref, tree, base):
 # ---------------------------------------------------------------------------
 
 def data_for(tag, n):
-    """deterministic non-zero payload"""
+    """deterministic non-zero payload ("fill:X" = the byte X repeated: stale data that looks like directory slots)"""
+    if isinstance(tag, str) and tag.startswith("fill:"):
+        return tag[5:6].encode("latin-1") * n
     h = hashlib.sha256(str(tag).encode()).digest()
     out = bytearray()
     i = 0
